@@ -714,26 +714,33 @@ REG_TY = 'list reg_op * callable * bool * bool'
 def run_registry(desc, tamper=False):
     funs, holder = fresh_functions()
     reg = AdaptRegistry()
-    objs = []
+    raised = None
+    native = same = False
     try:
         for op, t in desc['ops']:
             o = build_term(t, funs, holder)
-            objs.append(o)
             if op == 'reg':
                 back = register_native(o) if desc['decorator'] else reg.register_native(o)
-                assert back is o
+                if back is not o:
+                    raised = 'register_native did not return its argument'
             else:
                 reg.unregister_native(o)
         q = build_term(desc['query'], funs, holder)
         native = bool(AdaptRegistry.is_native(q))
         same = BaseNetworkxAdapter().adapt_func(q) is q
+    except Exception as ex:   # the registry never raises on these callables
+        raised = '%s: %s' % (type(ex).__name__, ex)
     finally:
         for f in funs:
-            reg.unregister_native(f)
+            try:
+                reg.unregister_native(f)
+            except Exception:
+                pass
     if tamper:
         native = not native
     ops_c = c_list(['(%s %s)' % ('RegOp' if op == 'reg' else 'UnregOp', term_coq(t)) for op, t in desc['ops']], 'reg_op')
-    return '(%s, %s, %s, %s)' % (ops_c, term_coq(desc['query']), c_bool(native), c_bool(same)), {'native': native}
+    return ('(%s, %s, %s, %s)' % (ops_c, term_coq(desc['query']), c_bool(native), c_bool(same)),
+            {'native': native, 'raised': raised})
 
 
 def real_method_checks():
@@ -759,6 +766,17 @@ def real_method_checks():
 # ----------------------------------------------------------------------------------------
 # driver
 # ----------------------------------------------------------------------------------------
+def _safe(ctx, group, desc, fn, *args):
+    """run one pipeline; a conversion that raises on a generated input is a failing input"""
+    try:
+        return fn(desc, *args)
+    except AssertionError:
+        raise
+    except Exception as ex:
+        ctx.violate(group, desc, 'conversion raised %s: %s' % (type(ex).__name__, ex))
+        return None
+
+
 def _flag(ctx, group, case, res, names, viol_from):
     """res: tuple of booleans named by `names`; the first viol_from are agreements, the rest property clauses"""
     for i, (ok, nm) in enumerate(zip(res, names)):
@@ -802,7 +820,10 @@ def run(ctx):
     cases, metas = [], []
     for i in range(n_nx):
         desc = gen_nx_desc(r, nmax, odd=(i % 5 == 4))
-        case, facts = nx_pipeline(desc)
+        out = _safe(ctx, 'nx_roundtrip', desc, nx_pipeline)
+        if out is None:
+            continue
+        case, facts = out
         cases.append(case)
         metas.append((desc, facts))
     # canary: a tampered observation must be flagged
@@ -827,7 +848,10 @@ def run(ctx):
     cases, metas = [], []
     for i in range(n_opt):
         desc = gen_opt_desc(r, nmax, odd=(i % 5 == 4))
-        case, facts = opt_pipeline(desc)
+        out = _safe(ctx, 'opt_roundtrip', desc, opt_pipeline)
+        if out is None:
+            continue
+        case, facts = out
         cases.append(case)
         metas.append((desc, facts))
     res = ctx.coq_cases('opt_roundtrip', REQ, OPT_FN, cases, 5, case_ty=OPT_TY, shard=150, preamble=PRE)
@@ -844,7 +868,10 @@ def run(ctx):
     cases, metas = [], []
     for i in range(n_dumb):
         desc = gen_opt_desc(r, nmax, odd=False)
-        case, facts = dumb_pipeline(desc)
+        out = _safe(ctx, 'dumb', desc, dumb_pipeline)
+        if out is None:
+            continue
+        case, facts = out
         cases.append(case)
         metas.append((desc, facts))
     res = ctx.coq_cases('dumb', REQ, DUMB_FN, cases, 2, case_ty=DUMB_TY, shard=150, preamble=PRE)
@@ -859,7 +886,10 @@ def run(ctx):
     for i in range(n_dir):
         desc = gen_opt_desc(r, nmax, odd=(i % 4 == 3))
         sub = (i % 2 == 0)
-        two, facts = direct_pipeline(desc, sub)
+        out = _safe(ctx, 'direct', desc, direct_pipeline, sub)
+        if out is None:
+            continue
+        two, facts = out
         for step, c in zip(('adapt', 'restore'), two):
             cases.append(c)
             metas.append((desc, sub, step, facts))
@@ -876,7 +906,10 @@ def run(ctx):
     cases, metas = [], []
     for i in range(n_id):
         desc = gen_opt_desc(r, nmax, odd=True)
-        case, facts = identity_pipeline(desc)
+        out = _safe(ctx, 'identity', desc, identity_pipeline)
+        if out is None:
+            continue
+        case, facts = out
         cases.append(case)
         metas.append((desc, facts))
     res = ctx.coq_cases('identity', REQ, IDENT_FN, cases, 1, case_ty=IDENT_TY, shard=200, preamble=PRE)
@@ -929,6 +962,8 @@ def run(ctx):
         _flag(ctx, 'registry', desc, rr, ['is_native / adapt_func differ from the model',
                                           'a callable registered as native (through partial / method wrappers) is not used '
                                           'as is, or an unregistered one is'], 1)
+        if facts['raised']:
+            ctx.violate('registry', desc, 'registry operation raised ' + facts['raised'])
     bad = real_method_checks()
     ctx.count('registry', key='language-made bound methods', nontrivial=True)
     if bad:
